@@ -51,10 +51,10 @@ def spec_axioms():
         # a type object is at most one kind of wrapper (Final[...] / ClassVar[...] forms, TypeAliasType instances and
         # NewType callables are different kinds of objects)
         Q([Val], lambda t: z3.And(z3.Not(z3.And(is_qual(t), is_alias(t))), z3.Not(z3.And(is_qual(t), is_newtype(t))),
-                                 z3.Not(z3.And(is_alias(t), is_newtype(t)))), trigger=is_alias, name="wrapper-kinds-disjoint"),
+                                 z3.Not(z3.And(is_alias(t), is_newtype(t)))), trigger=[is_qual, is_alias, is_newtype], name="wrapper-kinds-disjoint"),
         # wrapper objects are finite: nesting depth decreases strictly (so a wrapper never wraps itself)
         Q([Val], lambda t: z3.And(depth(t) >= 0, z3.Implies(z3.And(wrapper(t), z3.Not(z3.And(is_alias(t), is_text(alias_value(t))))),
-                                                            depth(inner(t)) < depth(t))), name="wrappers-well-founded"),
+                                                            depth(inner(t)) < depth(t))), trigger=[is_qual, is_alias, is_newtype, depth], name="wrappers-well-founded"),
         z3.Not(wrapper(VNone)),
         # a ForwardRef / a str is not a wrapper
         Q([Val, Val], lambda a, m: z3.Not(wrapper(fwd(a, m))), trigger=fwd, name="forwardref-is-not-a-wrapper"),
